@@ -55,3 +55,81 @@ CHECKS["C09"] = {
     "floors": {"C09/reassembly": {"@nontrivial": 0.2, "ev_discard_unfinished": 0.05, "ev_continuation": 0.3, "ev_id_backwards": 0.03, "ev_kind_change": 0.01,
                                   "ev_oversize_packet": 0.02, "class_protocol": 0.2, "class_io": 0.2}},
 }
+
+CHECKS["C14"] = {
+    "pkg": "./http",
+    "level": "exploration",
+    "rule": ("A case is (content type from the six registered + unknown/parameterised/empty, request message, 0..5 handler messages (0..1 for Twirp), nil or an error "
+             "from the error grammar (arbitrary bytes incl. CR/LF/NUL/non-UTF-8/'%', drpcerr codes incl. 2^64-1 at wrap depth 0..6 through %w/errs/Cause/Unwrap/opaque layers, "
+             "Twirp-style Code() string incl. unknown codes and codes with CR/LF, hostile shapes: nil Unwrap/Cause, cycles, Code methods of wrong arity/type, typed nil, 130-deep chains), "
+             "0..4 metadata header entries (escaped k=v, key only, or raw strings over an alphabet weighted to '%', '=', hex and non-hex digits)). "
+             "Oracle: independent parse of the recorded response (status table copied from the Twirp spec, JSON body, grpc-web frames, base64 chunk-wise, trailer split on CRLF "
+             "with no bare CR/LF and exactly the expected keys), handler request/metadata equality with a reference percent-decoder (net/url.PathUnescape). "
+             "Sub-check limits: bodies of limit-1/limit/limit+1/... bytes in both directions, dishonest grpc-web length fields, corrupt base64; over-limit must be rejected, never truncated, allocation bounded. "
+             "Non-trivial: an error outcome, >= 2 streamed messages, or metadata present; every limits case."),
+    "assumptions": ["responses are captured with net/http/httptest.ResponseRecorder (Result() view, i.e. headers as snapshotted at WriteHeader)",
+                    "error-code mapping asserted only where the statement/doc fixes it (not for 130-deep chains or hostile Code methods combined with Twirp codes)",
+                    "a grpc-web response of exactly the limit may be rejected (the code uses >=); only truncation or acceptance over the limit is flagged; Twirp responses have no limit in the code and none is demanded"],
+    "subs": [
+        {"test": "TestC14Gateway", "prop": "C14/gateway", "quick": 60000, "thorough": 3000000, "shards_quick": 8, "shards_thorough": 16},
+        {"test": "TestC14Limits", "prop": "C14/limits", "quick": 400, "thorough": 8000, "shards_quick": 4, "shards_thorough": 16},
+    ],
+    "floors": {"C14/gateway": {"outcome_error": 0.4, "crlf_in_error": 0.03, "meta_malformed": 0.03, "meta": 0.4, "nonutf8_error": 0.03},
+               "C14/limits": {"over_limit_rejected": 0.1, "dishonest_length": 0.05}},
+}
+
+CHECKS["C13"] = {
+    "pkg": "./wire",
+    "level": "exploration",
+    "rule": ("Every receive-path entry point is driven with generated hostile input and must return a value or an error without panicking (panics are recovered per case and "
+             "reported with the input), agree with its reference where one exists, and stay within its allocation bound: ParseFrame (C08 differential generator), "
+             "Reader.ReadPacket (structured frame scripts, raw/hostile byte strings and bit-flipped streams under 2-3 chunkings, endless oversized frame), UnmarshalError, "
+             "drpcmetadata.Decode (7 malformation families incl. 2^63/2^64-1 length prefixes at each of the three length positions), drpchttp.Context on header values over an "
+             "alphabet weighted to '%', '=', hex/non-hex, the gateway's body readers with dishonest length fields / corrupt base64 / bodies around the limit, and the gateway's "
+             "error-code extraction on hostile error values (nil Unwrap/Cause, cycles, wrong-arity Code methods, typed nil). Non-trivial: the input reaches past the first validation branch "
+             "(>= 4 bytes for frames/reader, >= 2 bytes for metadata, >= 1 escape for headers, any error outcome for the gateway)."),
+    "assumptions": ["packet dispatch in stream and manager under arbitrary frame sequences is exercised by the E3 checks (C02/C05) rather than here",
+                    "allocation is bounded by observing runtime.MemStats.TotalAlloc around the call (gateway) and buffer capacities / largest requested read (reader)"],
+    "subs": [
+        {"test": "TestC08Differential", "prop": "C13/differential", "quick": 60000, "thorough": 4000000, "shards_quick": 4, "shards_thorough": 8, "env": {"VERIF_ID_OVERRIDE": "C13"}},
+        {"test": "TestC08Exhaustive", "prop": "C13/exhaustive", "quick": 1, "thorough": 1, "shards": 1, "env": {"VERIF_ID_OVERRIDE": "C13"}},
+        {"test": "TestC13ReaderBytes", "prop": "C13/reader_bytes", "quick": 40000, "thorough": 3000000, "shards_quick": 4, "shards_thorough": 8},
+        {"test": "TestC09Reassembly", "prop": "C13/reassembly", "quick": 20000, "thorough": 1000000, "shards_quick": 4, "shards_thorough": 8, "env": {"VERIF_ID_OVERRIDE": "C13"}},
+        {"test": "TestC09Hostile", "prop": "C13/hostile", "quick": 200, "thorough": 3000, "shards_quick": 2, "shards_thorough": 4, "env": {"VERIF_ID_OVERRIDE": "C13"}},
+        {"test": "TestC11Decode", "prop": "C13/codec_decode", "pkg": "./meta", "quick": 60000, "thorough": 4000000, "shards_quick": 4, "shards_thorough": 8, "env": {"VERIF_ID_OVERRIDE": "C13"}},
+        {"test": "TestC10UnmarshalErr", "prop": "C13/unmarshal", "pkg": "./meta", "quick": 20000, "thorough": 1000000, "shards_quick": 2, "shards_thorough": 4, "env": {"VERIF_ID_OVERRIDE": "C13"}},
+        {"test": "TestC13Header", "prop": "C13/http_header", "pkg": "./http", "quick": 60000, "thorough": 4000000, "shards_quick": 4, "shards_thorough": 8},
+        {"test": "TestC14Gateway", "prop": "C13/gateway", "pkg": "./http", "quick": 30000, "thorough": 1000000, "shards_quick": 4, "shards_thorough": 8, "env": {"VERIF_ID_OVERRIDE": "C13"}},
+        {"test": "TestC14Limits", "prop": "C13/limits", "pkg": "./http", "quick": 200, "thorough": 4000, "shards_quick": 4, "shards_thorough": 8, "env": {"VERIF_ID_OVERRIDE": "C13"}},
+    ],
+    "floors": {"C13/codec_decode": {"rejected": 0.3, "accepted": 0.1}, "C13/http_header": {"rejected": 0.2, "accepted": 0.1}},
+}
+
+CHECKS["C10"] = {
+    "pkg": "./meta",
+    "level": "exploration",
+    "rule": ("Codec half: error values from the grammar (message: empty/ASCII/UTF-8/arbitrary bytes incl. NUL, CR/LF and '%'/64 KiB; code none/0/1/2/12/2^32/2^63/2^64-1/random; "
+             "code attached under 0..6 wrapper layers of six kinds incl. opaque ones; hostile shapes) through drpcerr.Code, MarshalError, UnmarshalError: layout is 8-byte big-endian code + message, "
+             "message and code survive, Code finds the attached code at any transparent depth (and 0 under an opaque layer). Non-trivial: depth >= 2, code >= 2^32, message >= 128 bytes or with special bytes, or a hostile shape."),
+    "assumptions": ["chains deeper than 99 layers are don't-care for the code (the unwrap loop is bounded at 100); only termination and message identity are asserted there"],
+    "subs": [
+        {"test": "TestC10ErrCodec", "prop": "C10/codec", "quick": 60000, "thorough": 3000000, "shards_quick": 4, "shards_thorough": 8},
+        {"test": "TestC10UnmarshalErr", "prop": "C10/unmarshal", "quick": 20000, "thorough": 1000000, "shards_quick": 2, "shards_thorough": 4},
+    ],
+    "floors": {"C10/codec": {"depth_2plus": 0.3, "code_ge_2_32": 0.1, "special_bytes": 0.2}},
+}
+
+CHECKS["C11"] = {
+    "pkg": "./meta",
+    "level": "exploration",
+    "rule": ("Codec half: maps of 0..8 pairs of arbitrary byte strings (empty, 1 KiB, binary, near-duplicate keys) through Encode/Decode: library round trip, output parsed by a protowire "
+             "reference as message{map<string,string>=1} with exactly one entry per key and byte-identical to the canonical protobuf encoding of those entries, decoded by the real protobuf "
+             "runtime (dynamicpb, proto2 descriptor built at run time) to the same map, and the runtime's own encoding (deterministic and not) decoded by Decode to the same map; arbitrary bytes "
+             "(7 malformation families) into Decode: map or error, never both, and whatever is accepted reads identically under the protobuf rules. Non-trivial: >= 1 pair with an empty/long/binary string or >= 2 pairs (round trip); >= 2 input bytes (decode)."),
+    "assumptions": ["protobuf-go v1.27.1 (module cache) is the 'real protobuf runtime'; proto2 syntax is used so that non-UTF-8 strings are not rejected by the runtime itself"],
+    "subs": [
+        {"test": "TestC11RoundTrip", "prop": "C11/codec_roundtrip", "quick": 40000, "thorough": 2000000, "shards_quick": 4, "shards_thorough": 8},
+        {"test": "TestC11Decode", "prop": "C11/codec_decode", "quick": 60000, "thorough": 4000000, "shards_quick": 4, "shards_thorough": 8},
+    ],
+    "floors": {"C11/codec_roundtrip": {"empty_string": 0.2, "binary": 0.3, "long_string": 0.1}, "C11/codec_decode": {"rejected": 0.3, "accepted": 0.1}},
+}
